@@ -6,6 +6,7 @@ import (
 	"errors"
 	"fmt"
 	"io/fs"
+	"os"
 	"regexp"
 	"sort"
 	"strconv"
@@ -387,6 +388,8 @@ func execGP(_ *config, op string) string {
 		}
 		p.Process() //nolint: errcheck
 		return fmt.Sprintf("ok:%d", slot)
+	case "osfs":
+		return gpOsfs(toks[1])
 	case "proc":
 		var out string
 		cls, _ := classify(func() error { out = gpProc(toks); return nil })
@@ -428,8 +431,113 @@ func gpRandName(r *rng) string {
 	}
 }
 
+// gpOsfs runs a sequence of filesystem operations through the processor's real (os backed)
+// filesystem adapter in a scratch directory: the contract the processor model assumes of its
+// filesystem (Chtimes sets the modification time it is given, Stat reports it, Remove removes,
+// CreateTemp creates) is checked against the adapter the shipped binary uses.
+func gpOsfs(seq string) string {
+	dir, err := os.MkdirTemp("", "verif-osfs-")
+	if err != nil {
+		return "bad " + err.Error()
+	}
+	defer os.RemoveAll(dir)
+	fsys := gopro.VerifBaseFS()
+	var out []string
+	for _, st := range strings.Split(seq, ",") {
+		p := strings.Split(st, ":")
+		path := func(i int) string { return dir + "/" + unhexStr(p[i]) }
+		switch p[0] {
+		case "w": // set-up: a plain file (not through the adapter)
+			if err := os.WriteFile(path(1), []byte("x"), 0o644); err != nil {
+				return "bad " + err.Error()
+			}
+			out = append(out, "w")
+		case "h":
+			at, _ := strconv.ParseInt(p[2], 10, 64)
+			mt, _ := strconv.ParseInt(p[3], 10, 64)
+			if err := fsys.Chtimes(path(1), time.Unix(at, 0), time.Unix(mt, 0)); err != nil {
+				out = append(out, "h:err")
+			} else {
+				out = append(out, "h:ok")
+			}
+		case "s":
+			fi, err := fsys.Stat(path(1))
+			switch {
+			case err == nil:
+				out = append(out, fmt.Sprintf("s:ok:%d", fi.ModTime().Unix()))
+			case errors.Is(err, fs.ErrNotExist):
+				out = append(out, "s:enoent")
+			default:
+				out = append(out, "s:err")
+			}
+		case "r":
+			if err := fsys.Remove(path(1)); err != nil {
+				out = append(out, "r:err")
+			} else {
+				out = append(out, "r:ok")
+			}
+		case "t":
+			f, err := fsys.CreateTemp(dir, unhexStr(p[1]))
+			if err != nil {
+				out = append(out, "t:err")
+				break
+			}
+			name := f.Name()
+			_, werr := f.Write([]byte("file 'x'\n"))
+			cerr := f.Close()
+			_, serr := os.Stat(name)
+			ok := werr == nil && cerr == nil && serr == nil && strings.HasPrefix(name, dir+"/"+unhexStr(p[1]))
+			out = append(out, fmt.Sprintf("t:%v", ok))
+			os.Remove(name)
+		case "d":
+			es, err := fs.ReadDir(fsys, dir)
+			if err != nil {
+				out = append(out, "d:err")
+				break
+			}
+			var ns []string
+			for _, e := range es {
+				ns = append(ns, hexStr(e.Name()))
+			}
+			out = append(out, "d:"+strings.Join(ns, "+"))
+		}
+	}
+	return strings.Join(out, ",")
+}
+
+func genOsfs(r *rng) string {
+	names := []string{"GOPR0001.mp4", "GP010001.mp4", "GOPR0001-JOINED.mp4", "a b.MP4"}
+	var seq []string
+	n := 2 + r.intn(8)
+	for k := 0; k < n; k++ {
+		nm := hexStr(pick(r, names))
+		switch r.intn(7) {
+		case 0, 1:
+			seq = append(seq, "w:"+nm)
+		case 2, 3:
+			seq = append(seq, fmt.Sprintf("h:%s:%d:%d", nm, 1000000+r.intn(900000000), 1000000+r.intn(900000000)))
+			seq = append(seq, "s:"+nm)
+		case 4:
+			seq = append(seq, "s:"+nm)
+		case 5:
+			seq = append(seq, "r:"+nm)
+		default:
+			if r.bool() {
+				seq = append(seq, "t:"+hexStr("gopro-process-"))
+			} else {
+				seq = append(seq, "d")
+			}
+		}
+	}
+	return "osfs " + strings.Join(seq, ",")
+}
+
 func genGP(cfg *config, r *rng, i int, s *sink) string {
 	kind := i % 10
+	if cfg.prop == "C05" && i%25 == 3 {
+		s.count("gp.osfs")
+		return genOsfs(r)
+	}
 	switch {
 	case kind == 0:
 		s.count("gp.match")
@@ -541,6 +649,7 @@ func corpusGP(cfg *config) []string {
 		"args " + hexList([]string{"-metadata", "", "-i", ""}),
 		"args " + hexList([]string{"", "-i", ""}),
 		"validate ~",
+		"osfs w:" + hexStr("a.mp4") + ",h:" + hexStr("a.mp4") + ":1111111:2222222,s:" + hexStr("a.mp4") + ",t:" + hexStr("gopro-process-") + ",d,r:" + hexStr("a.mp4") + ",s:" + hexStr("a.mp4"),
 	}
 	// every single failing operation of one fixed scenario (fault enumeration in support of
 	// the correspondence; the all-schedules claim is the theorem)
